@@ -40,7 +40,11 @@ var addrKinds = []struct {
 	{"D6-low-bits-of-B6", func() net.IP { return net.ParseIP("2001:db8:ffff::b") }},
 }
 
-var behaviours = []string{"names", "empty", "error", "slow"}
+// "timeout": the resolver gives up only when the lookup's own deadline has passed and returns that context's error
+var behaviours = []string{"names", "empty", "error", "slow", "timeout"}
+
+// the behaviours of the exhaustive cross product (genA); "timeout" appears in the recovery items
+const crossBehaviours = 4
 
 type AScn struct {
 	Hops  []int          `json:"hops"` // address kind per hop (the destination is kind Dest)
@@ -49,16 +53,33 @@ type AScn struct {
 	Bound int            `json:"bound"`
 	// DestHop: the last hop carries the destination mark (the destination answered), as in every run that reached its target
 	DestHop bool `json:"dest_hop,omitempty"`
+	// Twice: once the first document is enriched the resolver recovers (every address now answers with its names) and a
+	// fresh copy of the document is enriched: what succeeded the first time comes from the cache, what failed is asked again
+	Twice      bool            `json:"twice,omitempty"`
+	second     *result.Results `json:"-"`
+	firstCalls map[string]int  `json:"-"`
 }
 
 func runA(sc *AScn, prefix []int, sig []uint32) (*vsched.Exec, *result.Results, *result.Results, map[string]int) {
 	cache.Cache.Flush()
 	calls := map[string]int{}
+	recovered := false
 	old := reversedns.LookupAddrFn
 	reversedns.LookupAddrFn = func(ctx context.Context, a string) ([]string, error) {
 		vsched.Yield("rdns")
 		calls[a]++
+		if recovered {
+			return []string{"name-of-" + a + "."}, nil
+		}
 		switch behaviours[sc.Beh[a]] {
+		case "timeout":
+			if dl, ok := ctx.Deadline(); ok {
+				vtime.Sleep(dl.Sub(vtime.Now()) + time.Millisecond)
+			}
+			if err := ctx.Err(); err != nil {
+				return nil, err
+			}
+			return nil, context.DeadlineExceeded
 		case "empty":
 			return []string{}, nil
 		case "error":
@@ -82,7 +103,20 @@ func runA(sc *AScn, prefix []int, sig []uint32) (*vsched.Exec, *result.Results, 
 		return &result.Results{Protocol: "udp", Traceroute: result.Traceroute{Runs: []result.TracerouteRun{run}}}
 	}
 	before, doc := mk(), mk()
-	x := vsched.Run(vsched.Config{Prefix: prefix, PrefixSig: sig, MaxVirtual: time.Hour}, nil, func() { doc.EnrichWithReverseDns() })
+	sc.second, sc.firstCalls = nil, nil
+	x := vsched.Run(vsched.Config{Prefix: prefix, PrefixSig: sig, MaxVirtual: time.Hour}, nil, func() {
+		doc.EnrichWithReverseDns()
+		if sc.Twice {
+			sc.firstCalls = map[string]int{}
+			for a, n := range calls {
+				sc.firstCalls[a] = n
+			}
+			recovered = true
+			d2 := mk()
+			d2.EnrichWithReverseDns()
+			sc.second = d2
+		}
+	})
 	return x, before, doc, calls
 }
 
@@ -105,6 +139,34 @@ func checkA(sc *AScn, x *vsched.Exec, before, doc *result.Results, calls map[str
 			return []string{"name-of-" + a + "."}
 		}
 		return nil
+	}
+	if sc.Twice {
+		if sc.second == nil {
+			return "second-enrichment-missing", ""
+		}
+		// the second pass: an address whose lookup succeeded (names, or no names) keeps that answer without a new query; an
+		// address whose lookup failed was not remembered as "no names": it is asked again and now has its names
+		for i, h := range append([]*result.TracerouteHop{{IPAddress: sc.second.Traceroute.Runs[0].Destination.IPAddress, ReverseDns: sc.second.Traceroute.Runs[0].Destination.ReverseDns}}, sc.second.Traceroute.Runs[0].Hops...) {
+			if len(h.IPAddress) == 0 {
+				continue
+			}
+			a := h.IPAddress.String()
+			w := []string{"name-of-" + a + "."}
+			failed := false
+			switch behaviours[sc.Beh[a]] {
+			case "empty":
+				w = nil
+			case "error", "timeout":
+				failed = true
+			}
+			if !((len(w) == 0 && len(h.ReverseDns) == 0) || reflect.DeepEqual(h.ReverseDns, w)) {
+				return "failure-remembered", fmt.Sprintf("second enrichment, entry %d (0 = destination) %s whose first lookup was %q: got %v want %v", i, a, behaviours[sc.Beh[a]], h.ReverseDns, w)
+			}
+			if !failed && calls[a] != sc.firstCalls[a] {
+				return "success-not-cached", fmt.Sprintf("%s (%s) was queried again: %d queries after the first pass, %d after the second", a, behaviours[sc.Beh[a]], sc.firstCalls[a], calls[a])
+			}
+		}
+		calls = sc.firstCalls
 	}
 	run, brun := doc.Traceroute.Runs[0], before.Traceroute.Runs[0]
 	eq := func(a, b []string) bool { return (len(a) == 0 && len(b) == 0) || reflect.DeepEqual(a, b) }
@@ -165,7 +227,7 @@ func genA(tier string) []AScn {
 			}
 			nb := 1
 			for range addrs {
-				nb *= len(behaviours)
+				nb *= crossBehaviours
 			}
 			for bc := 0; bc < nb; bc++ {
 				if tier != "thorough" && nh == maxHops && bc%5 != 0 {
@@ -175,8 +237,8 @@ func genA(tier string) []AScn {
 				s.Beh = map[string]int{}
 				b := bc
 				for _, a := range addrs {
-					s.Beh[a] = b % len(behaviours)
-					b /= len(behaviours)
+					s.Beh[a] = b % crossBehaviours
+					b /= crossBehaviours
 				}
 				s.Bound = 0
 				out = append(out, s)
@@ -189,6 +251,46 @@ func genA(tier string) []AScn {
 						out = append(out, s2)
 					}
 				}
+			}
+		}
+	}
+	// recovery items: documents of up to two hops over the two byte forms of one IPv4 address, an IPv6 address and an
+	// unanswered hop; every behaviour per address including the lookup's own deadline passing; enriched twice
+	rk := []int{0, 1, 2, 3}
+	for nh := 0; nh <= 2; nh++ {
+		total := 1
+		for i := 0; i < nh+1; i++ {
+			total *= len(rk)
+		}
+		for code := 0; code < total; code++ {
+			c := code
+			sc := AScn{Dest: rk[c%len(rk)], Twice: true}
+			c /= len(rk)
+			for i := 0; i < nh; i++ {
+				sc.Hops = append(sc.Hops, rk[c%len(rk)])
+				c /= len(rk)
+			}
+			seen := map[string]bool{}
+			var addrs []string
+			for _, k := range append(append([]int{}, sc.Hops...), sc.Dest) {
+				if ip := addrKinds[k].ip(); len(ip) > 0 && !seen[ip.String()] {
+					seen[ip.String()] = true
+					addrs = append(addrs, ip.String())
+				}
+			}
+			nb := 1
+			for range addrs {
+				nb *= len(behaviours)
+			}
+			for bc := 0; bc < nb; bc++ {
+				s := sc
+				s.Beh = map[string]int{}
+				b := bc
+				for _, a := range addrs {
+					s.Beh[a] = b % len(behaviours)
+					b /= len(behaviours)
+				}
+				out = append(out, s)
 			}
 		}
 	}
